@@ -65,11 +65,48 @@ def pipeline(zone, east, north, ell_ht, vcv, forward):
 def run(repo, rep):
     alg.reset()
     common.state_rule(repo, rep, [('geodepy.transform', 'transform_mga94_to_mga2020'), ('geodepy.transform', 'transform_mga2020_to_mga94')])
+    published_rules(repo, rep)
     wire_rules(repo, rep)
     shape_rules(repo, rep)
     covariance_rules(repo, rep)
     stage_rules(repo, rep)
     rep.floor('R-FORMULA', 54, 'nine covariance elements: end to end (two directions, three input shapes) and per stage (two rotations, two directions of the similarity)')
+
+
+GDA2020_PUBLISHED = {'tx': '0.06155', 'ty': '-0.01087', 'tz': '-0.04019', 'sc': '-0.009994', 'rx': '-0.0394924', 'ry': '-0.0327221', 'rz': '-0.0328979'}
+GDA2020_PUBLISHED_SD = {'sd_tx': '0.0007', 'sd_ty': '0.0006', 'sd_tz': '0.0007', 'sd_sc': '0.00010', 'sd_rx': '0.000011', 'sd_ry': '0.000010', 'sd_rz': '0.000011'}
+
+
+def published_rules(repo, rep):
+    """the GDA94 -> GDA2020 set and its uncertainties as published (GDA2020 Technical Manual v1.2, section 3.1: conformal 7-parameter transformation)"""
+    from fractions import Fraction as F
+    ev = Evaluator(repo)
+    m = repo.module('geodepy.constants')
+    t = ev.global_value(m, 'gda94_to_gda2020')
+    wm = 'geodepy/constants.py:1'
+    if not isinstance(t, Obj):
+        raise AnalysisError('anchor vanished: constants.gda94_to_gda2020')
+    for k, v in sorted(GDA2020_PUBLISHED.items()):
+        g = t.fields.get(k)
+        gf = g.as_fraction() if isinstance(g, Rat) else None
+        key = 'R-TABLE::geodepy/constants.py::gda94_to_gda2020::%s' % k
+        if gf == F(v):
+            rep.holds('R-TABLE', key, wm, '%s = %s as published' % (k, v))
+        else:
+            rep.violated('R-TABLE', key, wm, 'gda94_to_gda2020.%s is %s; the published value is %s' % (k, float(gf) if gf is not None else g, v), expected=v, actual=str(gf))
+    sd = t.fields.get('tf_sd')
+    if not isinstance(sd, Obj):
+        rep.violated('R-TABLE', 'R-TABLE::geodepy/constants.py::gda94_to_gda2020::tf_sd', wm, 'the GDA94 -> GDA2020 set carries no parameter uncertainties')
+        return
+    for k, v in sorted(GDA2020_PUBLISHED_SD.items()):
+        g = sd.fields.get(k)
+        gf = g.as_fraction() if isinstance(g, Rat) else None
+        key = 'R-TABLE::geodepy/constants.py::gda94_to_gda2020_sd::%s' % k
+        if gf == F(v):
+            rep.holds('R-TABLE', key, wm, '%s = %s as published' % (k, v))
+        else:
+            rep.violated('R-TABLE', key, wm, 'the uncertainty %s of the GDA94 -> GDA2020 set is %s; the published value is %s: the returned covariance carries a wrong parameter contribution' % (
+                k, float(gf) if gf is not None else g, v), expected=v, actual=str(gf))
 
 
 def wire_rules(repo, rep):
